@@ -22,6 +22,7 @@ func init() {
 		r.RequireMin("POOL-UAF", 20)
 		ee.RunOptSlice(r)
 		ee.RunOptParam(r)
+		ee.RunGlobalRef(r)
 		ee.RunResetOrder(r)
 		ee.RunLocks(r)
 		RunDoubleChecked(p, r, func(pkg string) bool { return strings.HasPrefix(pkg, modPath+"/constraint") || strings.HasPrefix(pkg, modPath+"/backend") })
